@@ -118,7 +118,10 @@ def run_case(ctx, col, case):
             # a traceback): the sequence must still be complete and the whole text carried
             msg = rng.choice(["door open", "limit switch", "E-STOP 42", "", " ", "limit switch\nZ axis",
                               "Traceback:\r\n  File x\r\nTimeoutError", "\nleading break", "x",
-                              "Hotend at 285 °C", "Überhitzung – µ-switch"])
+                              "Hotend at 285 °C", "Überhitzung – µ-switch",
+                              # bare carriage returns (a controller's status line relayed as it came) and
+                              # executable-looking text behind a break
+                              "ALARM:2\rM03 S12000\r", "soft limit\rX axis", "a\n\rb", "stop\vM3 S1"])
             pieces = [p.strip() for p in msg.splitlines() if p.strip()]
             col.count("halt_message_class:" + ("empty" if not pieces else "multi-line" if len(pieces) > 1 else "plain"))
             col.count("shutdown_ops_checked")
